@@ -59,6 +59,7 @@
 #include "uncrustify_version.h"
 #include "unicode.h"
 #include "universalindentgui.h"
+#include "verif_hooks.h"
 #include "width.h"
 
 #include <cerrno>
@@ -1972,6 +1973,7 @@ static void uncrustify_start(const deque<int> &data)
 {
    // Parse the text into chunks
    tokenize(data, Chunk::NullChunkPtr);
+   VERIF_HOOK(verif_dump_chunks("P0"));
    PROT_THE_LINE
 
    cpd.unc_stage = unc_stage_e::HEADER;
@@ -2032,6 +2034,7 @@ static void uncrustify_start(const deque<int> &data)
    enum_cleanup();
 
    mark_functor();
+   VERIF_HOOK(verif_dump_chunks("PS"));
 } // uncrustify_start
 
 
@@ -2039,6 +2042,8 @@ void uncrustify_file(const file_mem &fm, FILE *pfout, const char *parsed_file,
                      const char *dump_file, bool is_quiet, bool defer_uncrustify_end)
 {
    const deque<int> &data = fm.data;
+
+   VERIF_HOOK(verif_dump_digest("file"));
 
    // Save off the encoding and whether a BOM is required
    cpd.bom = fm.bom;
@@ -2322,7 +2327,9 @@ void uncrustify_file(const file_mem &fm, FILE *pfout, const char *parsed_file,
       sort_imports();
    }
    // Fix same-line inter-chunk spacing
+   VERIF_HOOK(verif_dump_chunks("PB"));
    space_text();
+   VERIF_HOOK(verif_dump_chunks("PA"));
 
    if (options::align_pp_define_span() > 0)
    {
@@ -2409,6 +2416,7 @@ void uncrustify_file(const file_mem &fm, FILE *pfout, const char *parsed_file,
       align_backslash_newline();
    }
    dump_step(dump_file, "Final version");
+   VERIF_HOOK(verif_dump_chunks("P1"));
 
    // which output is to be done?
    if (cpd.html_file == nullptr)
